@@ -337,6 +337,43 @@ func c19RW(c *engine.Ctx, in []byte, args map[string]string) {
 		c.Fail("writer-bytes", fmt.Sprintf("BinaryWriter produced %x (Len %d), encoding/binary gives %x for %v little=%v", w.Bytes(), w.Len(), ref, ops, little))
 		return
 	}
+	// the writer from an empty state, with every byte string handed over as a piece of one source buffer that has room
+	// behind it: the output is the same and the source buffer is not written to
+	for _, initCap := range []int{-1, 0, 2, 64} {
+		var w2 *parse.BinaryWriter
+		if initCap < 0 {
+			w2 = parse.NewBinaryWriter(nil)
+		} else {
+			w2 = parse.NewBinaryWriter(make([]byte, 0, initCap))
+		}
+		if little {
+			w2.ByteOrder = binary.LittleEndian
+		}
+		src := bytes.Repeat([]byte{0xEE}, 32)
+		off := 0
+		var ref2 []byte
+		for _, o := range ops {
+			if o.kind == "b" {
+				copy(src[off:], o.b)
+				w2.WriteBytes(src[off : off+len(o.b)])
+				off += len(o.b)
+			} else {
+				c19Write(w2, o)
+			}
+			ref2 = refEncode(ref2, o, little)
+		}
+		want := bytes.Repeat([]byte{0xEE}, 32)
+		n := 0
+		for _, o := range ops {
+			if o.kind == "b" {
+				n += copy(want[n:], o.b)
+			}
+		}
+		if !bytes.Equal(w2.Bytes(), ref2) || !bytes.Equal(src, want) {
+			c.Fail("writer-aliases-argument", fmt.Sprintf("BinaryWriter (initial capacity %d) with byte strings taken from one source buffer: produced %x want %x; the source buffer is %x want %x, for %v little=%v", initCap, w2.Bytes(), ref2, src, want, ops, little))
+			return
+		}
+	}
 	full := ref[len(prefix):]
 	truncs := []int{len(full)}
 	if ts, ok := args["trunc"]; ok {
@@ -771,7 +808,7 @@ func c19Finish(c *engine.Ctx, cov map[string]interface{}) string {
 func init() {
 	register(&engine.Check{
 		ID: "C19", Level: "model_checking",
-		Rule:        "all write histories of ≤3 (thorough 4) typed writes (27 op/value pairs: every width, signed and unsigned boundary values, byte strings of 0,1,3 bytes) plus all histories of 4 (thorough 5) writes over a 12-op core × {big, little} endian: writer bytes vs encoding/binary, then read back on 15 backends/environment behaviours (memory, Bytes() reader, ReadSeeker n/-1/1-byte chunks/EOF-with-data, ReaderAt with nil or EOF on exact fit, plain reader -1/n/chunked/EOF-with-data, *os.File, mmap path, mmap file) with the data truncated at every byte; Seek from every position × every offset in [-L-1,L+1] × whence 0..3 and Read/ReadAt for every (pos,len) on L≤6 bytes vs bytes.Reader and the io contracts (on the sequential-only backends: ReadAt at every (pos, off, len) either refuses or returns the right bytes and leaves the following reads intact); every bit string ≤17 bits through BitmapWriter→BitmapReader (destination nil, an empty slice whose spare capacity holds old data, or a buffer that is filled with other bits) and every buffer ≤2 bytes through BitmapReader",
+		Rule:        "all write histories of ≤3 (thorough 4) typed writes (27 op/value pairs: every width, signed and unsigned boundary values, byte strings of 0,1,3 bytes) plus all histories of 4 (thorough 5) writes over a 12-op core × {big, little} endian: writer bytes vs encoding/binary (also from an empty writer of four capacities with the byte strings passed as pieces of one source buffer, which must stay as it is), then read back on 15 backends/environment behaviours (memory, Bytes() reader, ReadSeeker n/-1/1-byte chunks/EOF-with-data, ReaderAt with nil or EOF on exact fit, plain reader -1/n/chunked/EOF-with-data, *os.File, mmap path, mmap file) with the data truncated at every byte; Seek from every position × every offset in [-L-1,L+1] × whence 0..3 and Read/ReadAt for every (pos,len) on L≤6 bytes vs bytes.Reader and the io contracts (on the sequential-only backends: ReadAt at every (pos, off, len) either refuses or returns the right bytes and leaves the following reads intact); every bit string ≤17 bits through BitmapWriter→BitmapReader (destination nil, an empty slice whose spare capacity holds old data, or a buffer that is filled with other bits) and every buffer ≤2 bytes through BitmapReader",
 		Assumptions: []string{"a reader may legally deliver io.EOF together with the last bytes, and a ReaderAt may return io.EOF or nil when a read ends exactly at the end", "Seek targets outside [0,Len] may be rejected (position unchanged) or accepted"},
 		Setup:       c19Setup, Work: c19Work, Finish: c19Finish,
 	})
